@@ -264,8 +264,10 @@ def explore(run, scale=1):
         sw = run.rng.sample(sw, 700 * scale)
     for src, ptys in sw:
         run_probe(run, src, ptys, "swizzle")
-    for e in wholelang.ENTRIES:
-        run_probe(run, e["src"], None, "corpus")
+    for e in wholelang.ENTRIES + wholelang.MAYBE_ENTRIES:
+        # executed on the arguments of the entry when it needs no globals (the host would have to set them first)
+        runnable = e["fn"] == "f" and not e["globals"]
+        run_probe(run, e["src"], {} if runnable else None, "corpus", inputs=e["args"] if runnable else None)
     for src in ILL_TYPED:
         fe = frontend(src)
         run.case((src, "ill"), nontrivial=False); run.count("ill-typed:" + fe)
